@@ -62,6 +62,21 @@ def scratch_dir(prefix: str = "vf") -> Path:
     return Path(tempfile.mkdtemp(prefix=prefix + "-", dir=base)).resolve()
 
 
+_PER_PROCESS = {}
+
+
+def per_process(key, factory):
+    """A value created once per PROCESS: pool workers are forked, so a module-level cache filled in the parent would
+    be shared by all of them - fatal for scratch directories that jobs write into concurrently."""
+    pid = os.getpid()
+    if _PER_PROCESS.get("pid") != pid:
+        _PER_PROCESS.clear()
+        _PER_PROCESS["pid"] = pid
+    if key not in _PER_PROCESS:
+        _PER_PROCESS[key] = factory()
+    return _PER_PROCESS[key]
+
+
 def sha(obj) -> str:
     return hashlib.sha1(json.dumps(obj, sort_keys=True, default=str).encode()).hexdigest()[:12]
 
